@@ -442,7 +442,15 @@ func TestDatetime(t *testing.T) {
 	names = append(names, "nope", "", "rfc3339")
 	rk.Check(t, "datetime", 2, evid.Scale(2500, 20000), func(t *rapid.T) {
 		var v any
-		switch rapid.IntRange(0, 5).Draw(t, "vkind") {
+		switch rapid.IntRange(0, 7).Draw(t, "vkind") {
+		case 6, 7:
+			// calendar corners (see cornerInstants), as seconds, milliseconds, microseconds or nanoseconds
+			sec := cornerInstants[rapid.IntRange(0, len(cornerInstants)-1).Draw(t, "cornerinst")] + rapid.SampledFrom([]int64{0, 0, -1, 1}).Draw(t, "corneroff")
+			v = sec * rapid.SampledFrom([]int64{1, 1000, 1000, 1000000, 1000000000}).Draw(t, "unit")
+			if rapid.IntRange(0, 3).Draw(t, "frac") == 0 {
+				v = v.(int64) + rapid.SampledFrom([]int64{1, 999, 500}).Draw(t, "fracv")
+			}
+			evid.Label("datetime/corner-instant")
 		case 0, 1, 2:
 			v = rapid.Int64Range(-1, 4102444800000).Draw(t, "epoch")
 		case 3:
@@ -507,6 +515,26 @@ var zones = []string{"", "", "+8", "-5", "+5:30", "-3:30", "+0", "Asia/Shanghai"
 
 var thisYear = time.Now().Year()
 
+var cornerInstants = func() []int64 {
+	var out []int64
+	for _, d := range []string{
+		"2000-02-29 00:00:00", "2000-02-29 23:59:59", "2024-02-29 12:00:00", "2100-02-28 23:59:59", "2100-03-01 00:00:00", "1900-03-01 00:00:00",
+		"1999-12-31 23:59:59", "2000-01-01 00:00:00", "2021-12-31 23:59:59", "2022-01-01 00:00:00", "2016-12-31 23:59:59",
+		"2021-01-31 23:59:59", "2021-04-30 23:59:59", "2021-06-15 12:00:00", "2021-06-15 00:00:00", "2021-06-15 12:59:59", "2021-06-15 00:59:59", "2021-06-15 11:59:59",
+		"2021-03-14 06:59:59", "2021-03-14 07:00:00", "2021-03-14 02:30:00", "2021-11-07 05:59:59", "2021-11-07 06:00:00", "2021-11-07 01:30:00",
+		"2021-03-28 00:59:59", "2021-03-28 01:00:00", "2021-03-28 01:30:00", "2021-10-31 00:59:59", "2021-10-31 01:00:00", "2021-10-31 01:30:00",
+		"1986-05-03 16:00:00", "1986-05-04 02:30:00", "1986-09-13 15:00:00", "1991-04-14 02:00:00", "1988-07-01 12:00:00",
+		"2038-01-19 03:14:07", "2038-01-19 03:14:08", "2001-09-09 01:46:40", "1971-01-01 00:00:00", "2099-12-31 23:59:59",
+	} {
+		tm, err := time.Parse("2006-01-02 15:04:05", d)
+		if err != nil {
+			panic(err)
+		}
+		out = append(out, tm.Unix())
+	}
+	return out
+}()
+
 func TestDefaultTime(t *testing.T) {
 	rk.Check(t, "default_time", 3, evid.Scale(3000, 25000), func(t *rapid.T) {
 		now := time.Now()
@@ -517,6 +545,13 @@ func TestDefaultTime(t *testing.T) {
 		zone := rapid.SampledFrom(zones).Draw(t, "zone")
 		sec := rapid.Int64Range(31536000, 4102444800).Draw(t, "sec")
 		nsec := rapid.Int64Range(0, 999999999).Draw(t, "nsec")
+		if rapid.IntRange(0, 2).Draw(t, "corner") == 0 {
+			// calendar and clock corners: leap days, year and month ends, noon / midnight, daylight-saving changes of the
+			// named zones (New York 2021-03-14 / 2021-11-07, London 2021-03-28 / 2021-10-31, Shanghai 1986..1991), 2038
+			sec = cornerInstants[rapid.IntRange(0, len(cornerInstants)-1).Draw(t, "cornerinst")] + rapid.SampledFrom([]int64{0, 0, -1, 1, 1800, -1800, 3600, -3600}).Draw(t, "corneroff")
+			nsec = rapid.SampledFrom([]int64{0, 999999999, 1, 500000000, 999000000, 1000000}).Draw(t, "cornernsec")
+			evid.Label("default_time/corner-instant")
+		}
 		inst := time.Unix(sec, nsec).UTC()
 		if tl.yearless {
 			inst = time.Date(thisYear, inst.Month(), inst.Day(), inst.Hour(), inst.Minute(), inst.Second(), inst.Nanosecond(), time.UTC)
